@@ -127,7 +127,7 @@ pub fn run(ctx: &Ctx) -> (Stats, Report) {
     st.section("replays", &mut mark);
     let seed = ctx.seed;
     let ops = all_ops();
-    let budget: u64 = if ctx.thorough { 40_000_000 } else { 3_000_000 };
+    let budget: u64 = if ctx.thorough { 120_000_000 } else { 8_000_000 };
 
     for (oi, op) in ops.iter().enumerate() {
         let mut pools_: Vec<Vec<Arg>> = op.args.iter().enumerate().map(|(k, ak)| arg_pool(*ak, seed, if k == 0 { PoolSize::Full } else { PoolSize::Small })).collect();
@@ -179,7 +179,7 @@ pub fn run(ctx: &Ctx) -> (Stats, Report) {
     st.section("operation_table_pool_cross_products", &mut mark);
 
     // random operands (proptest) for unary / binary rows
-    let cases = if ctx.thorough { 300_000 } else { 20_000 };
+    let cases = if ctx.thorough { 2_000_000 } else { 60_000 };
     for (oi, op) in ops.iter().enumerate() {
         if op.args.len() > 2 {
             continue;
@@ -263,7 +263,7 @@ pub fn run(ctx: &Ctx) -> (Stats, Report) {
         let s = pt_run(
             &format!("C02/parse/{}", kind.name()),
             seed,
-            (if ctx.thorough { 800_000 } else { 80_000 }) / THREADS as u32,
+            (if ctx.thorough { 5_000_000 } else { 240_000 }) / THREADS as u32,
             THREADS,
             || (strat::raw(kind), proptest::collection::vec(any::<u32>(), 96), 0u32..=speller::PERTURBS.len() as u32),
             |(raw, choices, neg): &(i128, Vec<u32>, u32), st: &mut Stats| {
